@@ -11,121 +11,217 @@ import (
 
 	"github.com/refraction-networking/uquic/internal/ackhandler"
 	"github.com/refraction-networking/uquic/internal/flowcontrol"
+	"github.com/refraction-networking/uquic/internal/handshake"
 	"github.com/refraction-networking/uquic/internal/monotime"
 	"github.com/refraction-networking/uquic/internal/protocol"
+	"github.com/refraction-networking/uquic/internal/qerr"
 	"github.com/refraction-networking/uquic/internal/utils"
 	"github.com/refraction-networking/uquic/internal/wire"
+	"github.com/refraction-networking/uquic/qlogwriter"
 	tls "github.com/refraction-networking/utls"
 )
 
-// Exporters for the C04 caller-level driver (flowcall). Add-only.
+// Exporters for the C04 caller-level driver (flowcall). Add-only; injected together with the C15 / C03
+// glue hooks verif_sglue.go / verif_rglue.go, whose inert sendConn / connRunner / qlog trace, packet
+// entry point (VerifGlueConn.HandlePacket = the real Conn.handleShortHeaderPacket with a stand-in for
+// packet protection only) and AdvertisedWindows (the transport parameters handed to the TLS stack) are
+// reused here.
 //
-// VerifFCConn is a real *Conn built far enough (the same constructors newConnection /
-// newClientConnection call: conn-ID manager and generator, preSetup) to run the real
-// handleTransportParameters / applyTransportParameters, the real streams map with the real
-// Conn.newFlowController closure, the real framer and the real frame dispatch of the streams map.
-// There is no packer, no crypto and no run loop: the driver plays the run loop.
+// VerifFCConn is a connection created by the REAL constructors newConnection (server), newClientConnection
+// (client) or newUClientConnection (client driven by a QUICSpec) — as Transport / UTransport call them
+// after validateConfig + populateConfig — traced (qlog) or not. Nothing is run: the driver plays the run
+// loop. Incoming frames go through the streams map's dispatch or, as whole packets, through the real
+// handleShortHeaderPacket → handleUnpackedShortHeaderPacket → handleFrames → handleFrame; outgoing frames
+// are composed by the real framer, either directly or by the real Conn.sendPackets (whose packer is a
+// stand-in that asks the real framer for one payload and sends nothing).
 type VerifFCConn struct {
-	C *Conn
+	C  *Conn
+	g  *VerifGlueConn
+	pk *verifFCPacker
+	pn int64
 }
 
-type verifFCRunner struct{}
-
-func (verifFCRunner) Add(protocol.ConnectionID, packetHandler) bool                    { return true }
-func (verifFCRunner) Remove(protocol.ConnectionID)                                     {}
-func (verifFCRunner) ReplaceWithClosed([]protocol.ConnectionID, []byte, time.Duration) {}
-func (verifFCRunner) AddResetToken(protocol.StatelessResetToken, packetHandler)        {}
-func (verifFCRunner) RemoveResetToken(protocol.StatelessResetToken)                    {}
-
-var (
-	verifFCDestConnID = protocol.ParseConnectionID([]byte{0xde, 0xad, 0xbe, 0xef})
-	verifFCSrcConnID  = protocol.ParseConnectionID([]byte{1, 2, 3, 4})
-	verifFCOrigDest   = protocol.ParseConnectionID([]byte{9, 9, 9, 9, 9, 9, 9, 9})
-)
-
-// VerifFCNewConn builds the connection with our configuration (validated by the real populateConfig).
-func VerifFCNewConn(client bool, conf *Config) *VerifFCConn {
-	ctx, cancel := context.WithCancelCause(context.Background())
-	c := &Conn{
-		ctx:                 ctx,
-		ctxCancel:           cancel,
-		config:              populateConfig(conf),
-		handshakeDestConnID: verifFCDestConnID,
-		origDestConnID:      verifFCOrigDest,
-		srcConnIDLen:        verifFCSrcConnID.Len(),
-		perspective:         protocol.PerspectiveServer,
-		logger:              utils.DefaultLogger,
-		version:             protocol.Version1,
-	}
-	if client {
-		c.perspective = protocol.PerspectiveClient
-	}
-	runner := verifFCRunner{}
-	c.connIDManager = newConnIDManager(
-		verifFCDestConnID,
-		func(token protocol.StatelessResetToken) { runner.AddResetToken(token, nil) },
-		runner.RemoveResetToken,
-		c.queueControlFrame,
-	)
-	var clientDest *protocol.ConnectionID
-	if !client {
-		clientDest = &verifFCOrigDest
-	}
-	c.connIDGenerator = newConnIDGenerator(
-		runner,
-		verifFCSrcConnID,
-		clientDest,
-		newStatelessResetter(nil),
-		connRunnerCallbacks{
-			AddConnectionID:    func(protocol.ConnectionID) {},
-			RemoveConnectionID: runner.Remove,
-			ReplaceWithClosed:  runner.ReplaceWithClosed,
-		},
-		c.queueControlFrame,
-		&protocol.DefaultConnectionIDGenerator{ConnLen: verifFCSrcConnID.Len()},
-	)
-	c.preSetup()
-	return &VerifFCConn{C: c}
+// verifFCPacker stands in for the packet packer below Conn.sendPackets: it composes the payload of one
+// packet with the connection's real framer and reports "nothing to send".
+type verifFCPacker struct {
+	c      *Conn
+	maxLen protocol.ByteCount
+	called bool
+	frames []ackhandler.Frame
+	sfs    []ackhandler.StreamFrame
 }
 
-type verifFCSendConn struct{}
+var errVerifFCPacker = errors.New("verif: packer stand-in: not expected here")
 
-func (verifFCSendConn) Write([]byte, uint16, protocol.ECN) error { return nil }
-func (verifFCSendConn) WriteTo([]byte, net.Addr) error           { return nil }
-func (verifFCSendConn) Close() error                             { return nil }
-func (verifFCSendConn) LocalAddr() net.Addr                      { return &net.UDPAddr{IP: net.IPv4(10, 0, 0, 1), Port: 1} }
-func (verifFCSendConn) RemoteAddr() net.Addr                     { return &net.UDPAddr{IP: net.IPv4(10, 0, 0, 2), Port: 2} }
-func (verifFCSendConn) ChangeRemoteAddr(net.Addr, packetInfo)    {}
-func (verifFCSendConn) capabilities() connCapabilities           { return connCapabilities{} }
+func (p *verifFCPacker) PackCoalescedPacket(onlyAck bool, _ protocol.ByteCount, now monotime.Time, v protocol.Version) (*coalescedPacket, error) {
+	p.called = true
+	if !onlyAck {
+		p.frames, p.sfs, _ = p.c.framer.Append(nil, nil, p.maxLen, now, v)
+	}
+	return nil, nil
+}
 
-// VerifFCNewUConn builds a spec-driven client with the REAL newUClientConnection (the spec's transport
-// parameters are what is advertised; configCoveringAdvertised + preSetup decide what is enforced). The
-// handshake is never started; the driver delivers the peer's parameters with PeerParameters.
-func VerifFCNewUConn(spec *QUICSpec, conf *Config) (v *VerifFCConn, err error) {
+func (p *verifFCPacker) PackAckOnlyPacket(protocol.ByteCount, monotime.Time, protocol.Version) (shortHeaderPacket, *packetBuffer, error) {
+	return shortHeaderPacket{}, nil, errNothingToPack
+}
+
+func (p *verifFCPacker) AppendPacket(_ *packetBuffer, _ protocol.ByteCount, now monotime.Time, v protocol.Version) (shortHeaderPacket, error) {
+	if !p.called {
+		p.called = true
+		p.frames, p.sfs, _ = p.c.framer.Append(nil, nil, p.maxLen, now, v)
+	}
+	return shortHeaderPacket{}, errNothingToPack
+}
+
+func (p *verifFCPacker) PackPTOProbePacket(protocol.EncryptionLevel, protocol.ByteCount, bool, monotime.Time, protocol.Version) (*coalescedPacket, error) {
+	return nil, errVerifFCPacker
+}
+
+func (p *verifFCPacker) PackConnectionClose(*qerr.TransportError, protocol.ByteCount, protocol.Version) (*coalescedPacket, error) {
+	return nil, errVerifFCPacker
+}
+
+func (p *verifFCPacker) PackApplicationClose(*qerr.ApplicationError, protocol.ByteCount, protocol.Version) (*coalescedPacket, error) {
+	return nil, errVerifFCPacker
+}
+
+func (p *verifFCPacker) PackPathProbePacket(protocol.ConnectionID, []ackhandler.Frame, protocol.Version) (shortHeaderPacket, *packetBuffer, error) {
+	return shortHeaderPacket{}, nil, errVerifFCPacker
+}
+
+func (p *verifFCPacker) PackMTUProbePacket(ackhandler.Frame, protocol.ByteCount, protocol.Version) (shortHeaderPacket, *packetBuffer, error) {
+	return shortHeaderPacket{}, nil, errVerifFCPacker
+}
+
+func (p *verifFCPacker) SetToken([]byte) {}
+
+// VerifFCNew creates the connection. kind: "server", "client", "uclient" (spec must be non-nil).
+func VerifFCNew(kind string, conf *Config, spec *QUICSpec, traced bool) (v *VerifFCConn, err error) {
 	defer func() {
 		if e := recover(); e != nil {
-			v, err = nil, fmt.Errorf("newUClientConnection panicked: %v", e)
+			v, err = nil, fmt.Errorf("constructor panicked: %v", e)
 		}
 	}()
-	w := newUClientConnection(
-		context.Background(),
-		verifFCSendConn{},
-		verifFCRunner{},
-		verifFCDestConnID,
-		verifFCSrcConnID,
-		&protocol.DefaultConnectionIDGenerator{ConnLen: verifFCSrcConnID.Len()},
-		newStatelessResetter(nil),
-		populateConfig(conf),
-		&tls.Config{ServerName: "verif.example", NextProtos: []string{"h3"}},
-		0,
-		false,
-		false,
-		nil,
-		utils.DefaultLogger,
-		protocol.Version1,
-		spec,
-	)
-	return &VerifFCConn{C: w.Conn}, nil
+	if err := validateConfig(conf); err != nil {
+		return nil, err
+	}
+	conf = populateConfig(conf)
+	remote := &net.UDPAddr{IP: net.IPv4(192, 0, 2, 1), Port: 4433}
+	sc := verifGlueSendConn{local: &net.UDPAddr{IP: net.IPv4(127, 0, 0, 1), Port: 1234}, remote: remote}
+	var trace qlogwriter.Trace
+	if traced {
+		trace = verifGlueTrace{}
+	}
+	dest := protocol.ParseConnectionID([]byte{0xde, 0xad, 0xbe, 0xef, 1, 2, 3, 4})
+	src := protocol.ParseConnectionID([]byte{9, 8, 7, 6})
+	gen := &protocol.DefaultConnectionIDGenerator{ConnLen: src.Len()}
+	var c *Conn
+	switch kind {
+	case "server":
+		ctx, cancel := context.WithCancelCause(context.Background())
+		w := newConnection(ctx, cancel, sc, verifGlueRunner{}, dest, nil, protocol.ConnectionID{}, dest, src, gen,
+			newStatelessResetter(nil), conf, &tls.Config{}, handshake.NewTokenGenerator(handshake.TokenProtectorKey{}),
+			false, 10*time.Millisecond, trace, utils.DefaultLogger, protocol.Version1)
+		c = w.Conn
+	case "client":
+		w := newClientConnection(context.Background(), sc, verifGlueRunner{}, dest, src, gen, newStatelessResetter(nil),
+			conf, &tls.Config{ServerName: "verif.example"}, 0, true, false, trace, utils.DefaultLogger, protocol.Version1)
+		c = w.Conn
+	case "uclient":
+		if spec == nil {
+			return nil, errors.New("verif: uclient needs a spec")
+		}
+		w := newUClientConnection(context.Background(), sc, verifGlueRunner{}, dest, src, gen, newStatelessResetter(nil),
+			conf, &tls.Config{ServerName: "verif.example", NextProtos: []string{"h3"}}, 0, false, false, trace,
+			utils.DefaultLogger, protocol.Version1, spec)
+		c = w.Conn
+	default:
+		return nil, errors.New("verif: unknown kind")
+	}
+	g := &VerifGlueConn{C: c, unp: &verifGlueUnpacker{}, addr: remote, now: monotime.Time(1_000_000_000)}
+	c.unpacker = verifFCUnpacker{g.unp}
+	pk := &verifFCPacker{c: c}
+	c.packer = pk
+	return &VerifFCConn{C: c, g: g, pk: pk}, nil
+}
+
+// Traced says whether the connection records qlog events (handleFrames then keeps parsing after an error).
+func (v *VerifFCConn) Traced() bool { return v.C.qlogger != nil }
+
+// Advertised: initial_max_data and initial_max_stream_data_bidi_local / _bidi_remote / _uni of the transport
+// parameters the constructor handed to the TLS stack (what the peer is told it may send).
+func (v *VerifFCConn) Advertised() (maxData, bidiLocal, bidiRemote, uni int64, ok bool) {
+	bidiLocal, bidiRemote, uni, maxData, ok = v.g.AdvertisedWindows()
+	return
+}
+
+// RestoreParameters: a client resumes a session with remembered transport parameters (0-RTT): the real
+// restoreTransportParameters, which the run loop calls on handshake.EventRestoredTransportParameters.
+func (v *VerifFCConn) RestoreParameters(p *wire.TransportParameters) {
+	v.C.restoreTransportParameters(p)
+}
+
+// Reject0RTT: the server rejected 0-RTT (handshake.EventDiscard0RTTKeys → the real dropEncryptionLevel).
+func (v *VerifFCConn) Reject0RTT(now monotime.Time) error {
+	return v.C.dropEncryptionLevel(protocol.Encryption0RTT, now)
+}
+
+// NextConnection: the handshake completes (stand-in: the channel handleHandshakeComplete closes) and the
+// application calls the real Conn.NextConnection to go on after a 0-RTT rejection.
+func (v *VerifFCConn) NextConnection() error {
+	select {
+	case <-v.C.handshakeCompleteChan:
+	default:
+		close(v.C.handshakeCompleteChan)
+	}
+	_, err := v.C.NextConnection(context.Background())
+	return err
+}
+
+// HandlePacket: one 1-RTT packet with this plaintext payload, received at rcvTime, through the real
+// Conn.handleShortHeaderPacket.
+func (v *VerifFCConn) HandlePacket(payload []byte, rcvTime monotime.Time) (processed bool, err error) {
+	v.pn++
+	v.g.now = rcvTime - monotime.Time(time.Millisecond)
+	return v.g.HandlePacket(v.pn, payload)
+}
+
+// verifFCUnpacker: the glue unpacker (stand-in for packet protection), plus 0-RTT long header packets.
+type verifFCUnpacker struct{ *verifGlueUnpacker }
+
+func (u verifFCUnpacker) UnpackLongHeader(hdr *wire.Header, _ []byte) (*unpackedPacket, error) {
+	return &unpackedPacket{
+		hdr:             &wire.ExtendedHeader{Header: *hdr, PacketNumber: u.pn, PacketNumberLen: protocol.PacketNumberLen2},
+		encryptionLevel: protocol.Encryption0RTT,
+		data:            u.payload,
+	}, nil
+}
+
+// Handle0RTTPacket: one 0-RTT packet with this plaintext payload through the real Conn.handleLongHeaderPacket
+// (→ handleUnpackedLongHeaderPacket → handleFrames at encryption level 0-RTT). Servers only.
+func (v *VerifFCConn) Handle0RTTPacket(payload []byte, rcvTime monotime.Time) (processed bool, err error) {
+	c := v.C
+	v.pn++
+	v.g.unp.pn = protocol.PacketNumber(v.pn)
+	v.g.unp.payload = payload
+	hdr := &wire.Header{
+		Type:             protocol.PacketType0RTT,
+		Version:          c.version,
+		SrcConnectionID:  c.handshakeDestConnID,
+		DestConnectionID: c.origDestConnID,
+		Length:           protocol.ByteCount(2 + len(payload) + 16),
+	}
+	p := receivedPacket{buffer: getPacketBuffer(), remoteAddr: v.g.addr, rcvTime: rcvTime, data: make([]byte, 7+2*8+2+len(payload)+16)}
+	p.data[0] = 0xd0
+	return c.handleLongHeaderPacket(p, hdr, 0)
+}
+
+// SendPackets runs the real Conn.sendPackets (MAX_DATA step included); the packer stand-in composes one
+// payload of at most maxLen bytes with the real framer.
+func (v *VerifFCConn) SendPackets(maxLen protocol.ByteCount, now monotime.Time) ([]ackhandler.Frame, []ackhandler.StreamFrame, error) {
+	v.pk.maxLen, v.pk.called, v.pk.frames, v.pk.sfs = maxLen, false, nil, nil
+	err := v.C.sendPackets(now)
+	return v.pk.frames, v.pk.sfs, err
 }
 
 // PeerParameters: the peer's transport parameters arrive (the real handleTransportParameters; a client
